@@ -62,7 +62,7 @@ def summation(run, repo, max_len):
     n = 0
     for kind in ('Nasa', 'Nasa9', 'Shomate'):
         for q in QS:
-            I = Interp(repo, order=RankOrder(ranks(max_len)), max_depth=12)
+            I = Interp(repo, order=RankOrder(ranks(max_len)))
             mix_opaque(I)
             D = I.D
             P, x = D.sym('P'), D.sym('x')
@@ -128,7 +128,7 @@ def attachment(run, repo):
                     # the serialised form is only produced by to_dict of a gas species and re-enters through
                     # from_dict (default add_gas_P_adj); other combinations are not library paths
                     continue
-                I = Interp(repo, max_depth=12)
+                I = Interp(repo)
                 fr = Frame(I, repo.module('pmutt'), {}, None, None)
                 cov = Obj('cov', repo.cls('pmutt.mixture.cov.PiecewiseCovEffect'), attrs={'name_j': 'B'})
                 adj = fr.apply(gci, [], {}, None)
@@ -174,7 +174,7 @@ def real_models(run, repo):
     """real GasPressureAdj and PiecewiseCovEffect through the real _get_mix_quantity"""
     n = 0
     for kind in ('Nasa', 'Nasa9', 'Shomate'):
-        I = Interp(repo, order=RankOrder(dict(ranks(2), xcov=1, b1=5), const_ranks=True), max_depth=14)
+        I = Interp(repo, order=RankOrder(dict(ranks(2), xcov=1, b1=5), const_ranks=True))
         D = I.D
         fr = Frame(I, repo.module('pmutt'), {}, None, None)
         adj = fr.apply(repo.cls(GPA), [], {}, None)
@@ -207,8 +207,7 @@ def real_models(run, repo):
     # several coverage effects, each addressed through its own per-species keyword block, in both orders: every
     # model must see its own species' coverage (conditions of one model must not leak into the next)
     for kind in ('Nasa', 'Nasa9', 'Shomate'):
-        I = Interp(repo, order=RankOrder(dict(ranks(2), xB=1, xC=1, xD=1, bB=5, bC=5, bD=5), const_ranks=True),
-                   max_depth=14)
+        I = Interp(repo, order=RankOrder(dict(ranks(2), xB=1, xC=1, xD=1, bB=5, bC=5, bD=5), const_ranks=True))
         D = I.D
         fr = Frame(I, repo.module('pmutt'), {}, None, None)
         T, P = D.sym('T'), D.sym('P')
@@ -245,7 +244,7 @@ def reload_path(run, repo):
     order = RankOrder({'w0': 5, 'w1': 7, 'b1': 3}, const_ranks=True)
     for label in ('Nasa[surface+cov]', 'Nasa[gas]', 'Nasa[gas, adjustment disabled]', 'Nasa9', 'Nasa9[gas+cov]', 'Shomate', 'Shomate[surface+cov]',
                   'StatMech[references+misc]'):
-        I = Interp(repo, order=order, max_depth=16)
+        I = Interp(repo, order=order)
         bs = dict(builders(I, repo))
         if label not in bs:
             raise AnchorError('builder %s missing' % label)
